@@ -658,11 +658,15 @@ class SArr(np.ndarray):
         return r
 
     def min(self, axis=None, **k):
+        if self.dtype != object:
+            return np.ndarray.min(self.view(np.ndarray), axis=axis, **k)
         from vf import symnp
 
         return symnp.FACADE.min(self, axis=axis)
 
     def max(self, axis=None, **k):
+        if self.dtype != object:
+            return np.ndarray.max(self.view(np.ndarray), axis=axis, **k)
         from vf import symnp
 
         return symnp.FACADE.max(self, axis=axis)
